@@ -18,9 +18,32 @@ using Callback = unifex::inplace_stop_callback<CbFn>;
 
 enum class Body { none, dereg_self, dereg_other };
 
+// Storage for one registration with MANUAL lifetime (like unifex::manual_lifetime, which is what the library's own
+// operation states use): a callback that is executed inline inside its constructor (registration after the stop
+// request) and destroys its own registration there really runs ~inplace_stop_callback inside that execution.
+// std::optional would make that reset() a no-op (the optional is not engaged until emplace returns) and hide
+// everything the destructor does in this situation.
+struct Slot {
+  alignas(Callback) unsigned char buf[sizeof(Callback)];
+  bool live = false, constructing = false, destroyed_in_ctor = false;
+  Callback* ptr() { return reinterpret_cast<Callback*>(buf); }
+  template <typename Tok, typename Fn>
+  void emplace(Tok tok, Fn fn) {
+    constructing = true; destroyed_in_ctor = false;
+    ::new (static_cast<void*>(buf)) Callback(tok, fn);
+    constructing = false;
+    if (!destroyed_in_ctor) live = true;
+  }
+  void reset() {
+    if (live) { live = false; ptr()->~Callback(); }
+    else if (constructing && !destroyed_in_ctor) { destroyed_in_ctor = true; ptr()->~Callback(); }
+  }
+  ~Slot() { reset(); }
+};
+
 struct World {
   unifex::inplace_stop_source src;
-  std::optional<Callback> cb[2];
+  Slot cb[2];
   Body body[2] = {Body::none, Body::none};
   int runs[2] = {0, 0};
   int running_on[2] = {-1, -1};
